@@ -12,6 +12,7 @@
 (*                     fault to the end of the source)                     *)
 (*   shown             line numbers of the host quoted in the Display text *)
 (*   blank             line numbers of the host that are blank             *)
+(*   units             byte ranges of the sub-expressions of the fault     *)
 (*   notes             <<[file, ok (consistent in its own template), covers (the call site)]>>; wantnotes: call sites *)
 (***************************************************************************)
 EXTENDS Integers, Sequences, FiniteSets, TLC
@@ -34,6 +35,14 @@ Localises(o) == IF o.syntax THEN o.s >= o.fs /\ o.s <= o.len
                      \* where the planting names the offending token itself (xs..xe, e.g. the missing field of a path, the name
                      \* of an undefined variable), the span has to touch THAT token, not just the expression around it
                      /\ (o.xs < o.xe => (o.s < o.xe /\ o.e > o.xs))
+\* a span designates an expression: it never cuts a token or a bracketed group in two.  units = byte ranges <<us, ue>> of
+\* the tokens (names, numbers, strings) and of the {..} groups of the offending expression; each is either inside
+\* the span, around it, or apart from it
+Uncut(o) == \A k \in 1..Len(o.units) :
+              LET us == o.units[k][1] ue == o.units[k][2] IN
+              \/ o.e <= us \/ ue <= o.s                  \* apart
+              \/ (o.s <= us /\ ue <= o.e)                \* the span holds the unit
+              \/ (us <= o.s /\ o.e <= ue)                \* the unit holds the span
 RightTemplate(o) == o.file = o.host
 \* the report quotes the line the span starts on
 Quoted(o) == o.dispok /\ (Member(o.sl, o.blank) \/ Member(o.sl, o.shown))
